@@ -298,6 +298,11 @@ def run_env(ad, tier, seed=0, stages=("model", "bfs", "replay", "checker")):
                 continue
             if isinstance(r["reward"], dict) or abs(r["reward"] - obj) > ad.eps(inst):
                 res.add("C03", "replay-reward", inst, r["played"], "reward %s objective %s" % (r["reward"], obj))
+            r0 = r.get("reward_on_reset_instance")
+            if r0 is not None and (isinstance(r0, dict) or abs(r0 - obj) > ad.eps(inst)):
+                res.add("C03", "reward-of-actions-on-the-reset-instance", inst, r["played"],
+                        "get_reward(reset instance, actions) = %s, objective %s (get_reward(final state, actions) = %s)"
+                        % (r0, obj, r["reward"]))
             if r["checker"].startswith("reject"):
                 res.add("C06", "replay-checker", inst, r["played"], r["checker"])
     if "checker" in stages and ad.has_checker:
